@@ -1563,3 +1563,72 @@ Proof.
   - exists s1, o1. split; [reflexivity|]. apply D. reflexivity.
   - apply N.leb_le in Hd. rewrite Hd. exists s1, o1. split; [reflexivity|]. apply D. reflexivity.
 Qed.
+
+(* Once a call waits for the answer to its CANCEL, a router message makes it
+   return only the context's error, and only on the ERROR. *)
+Theorem cancelled_call_returns_ctx_err_proof : forall U s m s' outs o k r w dl,
+  WF s ->
+  step U s (RouterMsg m) = Ok s' outs -> In (OReturn o k r) outs ->
+  alookup (s_awaiting s) k = Some w -> w_phase w = WCancelWait dl ->
+  r = RetCtx dl /\ exists rq t, m = RError rq t.
+Proof.
+  intros U s m s' outs o k r w dl W H Hin Hw Hp.
+  destruct (reply_correlated_step_proof _ _ _ _ _ _ _ _ H Hin)
+    as [(Hm & w' & Hw' & _ & Hr & _)|(_ & w' & Hi & _ & Hph & _)].
+  - rewrite Hw in Hw'. inversion Hw'; subst w'. unfold reply_ret in Hr. rewrite Hp in Hr.
+    destruct Hr as [A B]. auto.
+  - exfalso. pose proof (nodup_alookup _ _ _ (wf_nodup _ W) Hi) as X. rewrite Hw in X.
+    inversion X; subst. congruence.
+Qed.
+
+(* ... and the only other way out is its response timer *)
+Theorem cancelled_call_other_exit_proof : forall U s l s' outs o k r w dl,
+  WF s -> step U s l = Ok s' outs -> In (OReturn o k r) outs ->
+  alookup (s_awaiting s) k = Some w -> w_phase w = WCancelWait dl ->
+  (forall m, l <> RouterMsg m) ->
+  r = RetTimeout /\ l = TimerFire o.
+Proof.
+  intros U s l s' outs o k r w dl W H Hin Hw Hp Hnm.
+  assert (Hkpos : 0 < k /\ k <= s_next s) by (eapply wf_keys; eauto; apply alookup_in; eauto).
+  assert (DISC : forall s0 s1 o1, s_awaiting s0 = s_awaiting s -> disconnect s0 = (s1, o1) -> In (OReturn o k r) o1 -> False).
+  { intros s0 s1 o1 Ea E X. destruct (disconnect_returns _ _ _ _ _ _ E X) as (w' & Hi & _ & Hph & _).
+    rewrite Ea in Hi. pose proof (nodup_alookup _ _ _ (wf_nodup _ W) Hi) as Y. rewrite Hw in Y. inversion Y; subst. congruence. }
+  destruct l; simpl in H.
+  - exfalso. lit_outs H Hin.
+  - exfalso. unfold step_api_start in H.
+    revert H. repeat break_match; intro H; inversion H; subst; simpl in Hin;
+      try (intuition discriminate; fail);
+      repeat match goal with X : _ \/ _ |- _ => destruct X end; try discriminate; try contradiction;
+      match goal with X : OReturn _ _ _ = OReturn _ _ _ |- _ => inversion X; subst end; lia.
+  - exfalso. eapply Hnm; reflexivity.
+  - unfold step_timer in H.
+    destruct (waiter_of (s_awaiting s) o0) as [[k0 w0]|] eqn:Ew; [|discriminate].
+    destruct (w_timer w0); [|discriminate]. destruct (n <=? s_now s); [|discriminate].
+    inversion H; subst. destruct Hin as [X|[]]. inversion X; subst. auto.
+  - exfalso. unfold step_ctx in H. lit_outs H Hin.
+  - exfalso. unfold step_ctx in H. lit_outs H Hin.
+  - exfalso. unfold step_api_finish in H.
+    destruct (fin_of (s_finishing s) o0) as [f|] eqn:Ef; [|discriminate].
+    assert (Hfid : f_id f <> k).
+    { intro X. assert (Hf : In f (s_finishing s)).
+      { clear - Ef. induction (s_finishing s) as [|f0 r0 IH]; simpl in Ef; [discriminate|].
+        destruct (Nat.eqb (f_o f0) o0); [inversion Ef; left; auto|right; auto]. }
+      destruct (wf_fin _ W f Hf) as (_ & _ & Z). rewrite X, Hw in Z. discriminate. }
+    destruct (f_op f); destruct (f_msg f); try discriminate;
+      revert H; repeat break_match; intro H; inversion H; subst; simpl in Hin;
+      repeat match goal with X : _ \/ _ |- _ => destruct X end; try discriminate; try contradiction;
+      try (match goal with X : OReturn _ _ _ = OReturn _ _ _ |- _ => inversion X; subst end; congruence);
+      try (eapply DISC; [|eassumption|eassumption]; reflexivity).
+  - exfalso. unfold step_inv_start in H. lit_outs H Hin.
+  - exfalso. unfold step_inv_exit in H. lit_outs H Hin.
+  - exfalso. unfold step_handler_return in H. lit_outs H Hin.
+  - exfalso. unfold step_send_prog in H. lit_outs H Hin.
+  - exfalso. unfold step_inv_timeout, cancel_inv in H. lit_outs H Hin.
+  - exfalso. unfold step_chunk in H. lit_outs H Hin.
+  - exfalso. unfold step_chunk in H. lit_outs H Hin.
+  - exfalso. unfold step_close_start, finish_close in H. lit_outs H Hin.
+  - exfalso. unfold step_close_timer in H. revert H. repeat break_match; try discriminate.
+    intro H. inversion H; subst. eapply DISC; [|eassumption|eassumption]; reflexivity.
+  - exfalso. revert H. repeat break_match; try discriminate.
+    intro H. inversion H; subst. eapply DISC; [|eassumption|eassumption]; reflexivity.
+Qed.
